@@ -334,10 +334,14 @@ func suiteReuse(rn *runner, r *rng, tier string) {
 		// by value: the caller keeps a copy of the ParsedJson struct and passes its address; unlike the returned
 		// pointer it still refers to the internal parser state after a failed call, so failures are part of the history
 		byval := dr.chance(1, 2)
+		// the caller reads every message into one buffer: successive inputs share their address (each result is read
+		// right after its parse, before the buffer is written again)
+		inplace := dr.chance(1, 3)
 		for k, op := range tc.ops {
 			if strings.HasPrefix(op, "parse ") {
 				nextParse.reuse = prev
 				nextParse.defaultOpts = defaults[k]
+				nextParse.inplace = inplace
 			}
 			tc.impl[k] = st.execTimed(op, 30*time.Second)
 			if strings.HasPrefix(op, "parse ") && strings.HasPrefix(tc.impl[k], "ok") {
